@@ -244,13 +244,19 @@ def c03(tier, seed, replay=None):
         sets = [dict(N=5, MaxAr=2, KindMode="node"), dict(N=4, MaxAr=2, WithConst=True, KindMode="edge"),
                 dict(N=4, MaxAr=3, KindMode="node"), dict(N=3, MaxAr=3, WithConst=True, KindMode="edge"), dict(N=6, Family="share")]
     def extra(verdict, coverage):
+        fan = fan_part(verdict, tier)
+        coverage["states"] += fan["states"]
+        coverage["transitions"] += fan["transitions"]
+        coverage["traces_validated_against_impl"] += fan["runs"]
+        coverage["evaluations"] += fan["runs"]
         if quick and not os.environ.get("VERIF_SUITE_TRACES"):
-            return {}
+            return {"high_fan_out": fan}
         st = suite_traces(verdict)
+        st_fan = fan
         coverage["states"] += st["states"]
         coverage["transitions"] += st["transitions"]
         coverage["traces_validated_against_impl"] += st["backward_passes_validated"]
-        return {"repository_suite_traces": st}
+        return {"repository_suite_traces": st, "high_fan_out": st_fan}
     return _run("C03", tier, seed, models, mutants, sets, decorate, "", ASSUME,
                 "every graph of the exported space (all DAGs with multi-edges, diamonds, dead branches, constants; contribution kinds "
                 "alias/fresh/sparse) is one case; distinct_nontrivial counts distinct (graph, session, builtin?) triples with >= 3 nodes",
@@ -307,9 +313,51 @@ def c10(tier, seed, replay=None):
     from checks import rules
     v2, cov2 = rules.c10_rules(tier, seed)
     rules.merge(v1, cov, v2, cov2, "vjp_functions_of_builtin_primitives_reapplied")
+    from checks import algebra
+    vsn = algebra.c10_vspace(v1, seed)
+    for k_ in ("states", "transitions"):
+        cov[k_] += vsn[k_]
+    cov["traces_validated_against_impl"] += vsn["cases"]
+    cov["evaluations"] += vsn["cases"]
+    cov["vector_space_layer_ownership"] = vsn
     rc = v1.finish()
     vlib.write_evidence("C10", tier, seed, "model_checking", cov, assume + rules.ASSUME, time.time() - t0, len(v1.violations))
     return rc
+
+
+def fan_part(verdict, tier):
+    """Fan.tla: one value consumed by K operations, K up to 1000 (thorough 5000); the closed form FanSum is tied to PathSum by a lemma
+    model-checked for K <= 17; reverse mode (twice), forward mode judged by TraceFan"""
+    r = vlib.tlc_must_pass(vlib.run_tlc("MCFan", cfg="CONSTANT MaxK = 17\nSPECIFICATION Spec\nINVARIANT Lemma\n", workers=4, timeout=900), "fan lemma")
+    ks = [1, 2, 3, 64, 255, 256, 257, 258, 300, 1000] if tier == "quick" else [1, 2, 3, 17, 64, 128, 255, 256, 257, 258, 300, 512, 1000, 2000, 5000]
+    pats = [["alias"], ["fresh"], ["alias", "fresh"], ["fresh", "fresh", "alias"]]
+    cases = []
+    for k in ks:
+        for pi, p in enumerate(pats):
+            for form in ("chain", "loop"):
+                cases.append({"id": len(cases) + 1, "K": k, "pat": p, "g": 1 + 2 * ((k + pi) % 2), "form": form})
+    obs, files = vlib.parallel_replay("fan_replay.py", cases, nproc=10, tag="fan")
+    accepted, g2, d2, _w, _inv = vlib.parallel_validate("TraceFan", files, cfg="SPECIFICATION Spec\n", njvm=10)
+    for o in obs:
+        s = sum((1 if o["pat"][(i - 1) % len(o["pat"])] == "alias" else 2 + ((3 * (i + 1) + 1) % 5)) for i in range(1, o["K"] + 1))
+        why = []
+        if o["err"]:
+            why.append(o["err"])
+        else:
+            if o["rev"] != [o["g"] * s, 2 * o["g"] * s]:
+                why.append("reverse mode over a value with %d consumers returned %s, the sum over paths is %s" % (o["K"], o["rev"], [o["g"] * s, 2 * o["g"] * s]))
+            if o["rev_again"] != o["rev"]:
+                why.append("second application of the VJP function returned %s" % o["rev_again"])
+            if o["fwd"] != [s, 2 * s]:
+                why.append("forward mode returned %s, expected %s" % (o["fwd"], [s, 2 * s]))
+            if not o["intact"]:
+                why.append("caller memory modified")
+        if not vlib.reconcile("fan observation %d %s" % (o["id"], why), o["id"] in accepted, not why) and not why:
+            why = [vlib.UNNAMED]
+        if why:
+            verdict.violation({"family": "fan", "K": o["K"], "pat": o["pat"], "form": o["form"]}, {"reason": why, "case": {k_: o[k_] for k_ in ("K", "pat", "g", "form")}})
+    return {"states": r.distinct + d2, "transitions": r.generated + g2, "runs": len(obs), "accepted": len(accepted), "fan_out_values": ks,
+            "lemma": "PathSum(FanGraph(K, pat), 1) = FanSum(K, pat) model-checked for K <= 17 (more than one period of every pattern), 4 kind patterns"}
 
 
 def suite_traces(verdict):
